@@ -49,11 +49,11 @@ impl Property for C13 {
         "C13"
     }
     fn rule(&self) -> &'static str {
-        "case = instance with <=3 integer/binary variables in small integer boxes (<=7 values each, negative and sign-crossing) x one inequality of degree<=2 whose coefficients are rationals p/q, q in {1,2,3,4,5,6,8,10,12}, rendered to f64, other constraints present x limit around the needed slack range | one rejection condition (unknown id, equality constraint, continuous variable, limit too small, constraint without function); both conversions; \
+        "case = instance with <=3 integer/binary variables in small integer boxes (<=7 values each, negative and sign-crossing) x one inequality of degree<=2 whose coefficients are rationals p/q, q in {1,2,3,4,5,6,8,10,12}, rendered to f64, other constraints present x limit around the needed slack range | one rejection condition (unknown id, equality constraint, continuous variable, limit too small, constraint without function, undefined variable, unbounded integer variable with a limit up to u64::MAX); both conversions; \
          oracle = brute force over EVERY lattice point of the box and EVERY integer slack value in the new variable's bounds, in exact rational arithmetic; non-trivial = converted, >=2 variables, both feasible and infeasible lattice points; distinct = sha256(instance, call)"
     }
     fn required_labels(&self) -> Vec<String> {
-        ["outcome=converted", "outcome=relaxed", "outcome=infeasible", "outcome=range-exceeded", "reject=unknown-id", "reject=equality", "reject=continuous", "reject=undefined-variable", "rational-coeff", "quadratic", "op=convert", "op=add-slack", "other-constraints", "negative-box", "binary-variable", "unsorted-variable-list", "limit=needed", "limit=needed-1", "second-conversion", "integer-linear-max-exactly-zero"].iter().map(|s| s.to_string()).collect()
+        ["outcome=converted", "outcome=relaxed", "outcome=infeasible", "outcome=range-exceeded", "reject=unknown-id", "reject=equality", "reject=continuous", "reject=undefined-variable", "reject=infinite-range", "rational-coeff", "quadratic", "op=convert", "op=add-slack", "other-constraints", "negative-box", "binary-variable", "unsorted-variable-list", "limit=needed", "limit=needed-1", "second-conversion", "integer-linear-max-exactly-zero"].iter().map(|s| s.to_string()).collect()
     }
     fn cases(&self, tier: Tier) -> usize {
         match tier {
@@ -75,7 +75,7 @@ impl Property for C13 {
     fn run(&self, t: &mut Tape, ctx: &mut Ctx) -> PResult {
         let op_add = t.coin();
         ctx.label(if op_add { "op=add-slack" } else { "op=convert" });
-        let reject = if t.p(64) { 1 + t.choice(5) } else { 0 }; // 1 unknown id, 2 equality, 3 continuous var, 4 no function, 5 undefined variable id in the function
+        let reject = if t.p(64) { 1 + t.choice(6) } else { 0 }; // 1 unknown id, 2 equality, 3 continuous var, 4 no function, 5 undefined variable id in the function, 6 unbounded integer variable (infinite slack range) with any limit up to u64::MAX
         let limit_mode = t.weighted(&[4, 2, 2, 1]); // exact needed, needed-1, generous, tiny
         let nv = 1 + t.choice(3);
         let quadratic = t.p(90);
@@ -260,6 +260,7 @@ impl Property for C13 {
         // slack range needed by the intended rational problem (exact): -min a*f over the lattice
         let minv = pts.iter().map(|p| intended.eval(&qpoint(p)).unwrap()).min().unwrap();
         let mut call_id = cid;
+        let mut infinite_range = false;
         match reject {
             1 => {
                 call_id = 9999;
@@ -298,6 +299,23 @@ impl Property for C13 {
                 inst.constraints.iter_mut().find(|c| c.id == cid).unwrap().function = Some(g);
                 ctx.label("reject=undefined-variable");
             }
+            6 => {
+                // an integer variable without bounds that f uses linearly: the slack range is infinite, which is
+                // above every limit the caller can give (u64::MAX included); only the conversion has a limit
+                let cand = fpoly.vars().into_iter().find(|id| vars.iter().any(|v| v.id == *id && v.kind == KIND_INTEGER) && !fpoly.coeff(&[*id]).is_zero());
+                match cand {
+                    Some(id) if linear && !op_add => {
+                        let dv = inst.decision_variables.iter_mut().find(|v| v.id == id).unwrap();
+                        dv.bound = if t.coin() { None } else { Some(crate::mk::bound(f64::NEG_INFINITY, f64::INFINITY)) };
+                        infinite_range = true;
+                        ctx.label("reject=infinite-range");
+                    }
+                    _ => {
+                        ctx.label("reject-skipped");
+                        return Ok(());
+                    }
+                }
+            }
             _ => {}
         }
         // limit
@@ -315,6 +333,7 @@ impl Property for C13 {
             2 => 100_000,
             _ => 1 + t.choice(3) as u64,
         };
+        let limit = if infinite_range && t.coin() { u64::MAX } else { limit };
         if limit == needed_exact {
             ctx.label("limit=needed");
         }
@@ -357,7 +376,7 @@ impl Property for C13 {
                     }
                     Ok(())
                 }
-                Ok(()) => fail(format!("C13/reject-{}-accepted", ["", "unknown-id", "equality", "continuous", "no-function", "undefined-variable"][reject]), format!("call succeeded but must be rejected: {}", what())),
+                Ok(()) => fail(format!("C13/reject-{}-accepted", ["", "unknown-id", "equality", "continuous", "no-function", "undefined-variable", "infinite-range"][reject]), format!("call succeeded but must be rejected: {}", what())),
             };
         }
         match res {
